@@ -216,3 +216,7 @@ func VHash(s string) uint64 { return calcSipHash(s) }
 // VDeepTableSize is set by the optional deep-introspection file (tag verifdeep): size of the
 // bucket table of a hash/set key, or of the keyspace when key is "".
 var VDeepTableSize func(vi *VInst, db int, key string) int
+
+// VDeepSessionState (optional, tag verifdeep): the connection's session record in the format of
+// the model's SessionState: database, protocol, name, MULTI state, queue length, watch count.
+var VDeepSessionState func(c *VClient) string
